@@ -46,10 +46,12 @@ impl PixelDataReader for JpegAdapter {
         // `stride` it the total number of bytes for each sample plane
         let stride: usize = bytes_per_sample as usize * cols as usize * rows as usize;
         let base_offset = dst.len();
-        dst.resize(
-            base_offset + (samples_per_pixel as usize * stride) * nr_frames,
-            0,
-        );
+        extend_zeroed(
+            dst,
+            (samples_per_pixel as usize)
+                .checked_mul(stride)
+                .and_then(|frame_size| frame_size.checked_mul(nr_frames)),
+        )?;
 
         let raw = src
             .raw_pixel_data()
@@ -74,7 +76,14 @@ impl PixelDataReader for JpegAdapter {
                 .with_whatever_context(|_| format!("JPEG decoding failure on frame {i}"))?;
 
             let decoded_len = decoded.len();
-            dst[dst_offset..(dst_offset + decoded_len)].copy_from_slice(&decoded);
+            let Some(target) = dst.get_mut(dst_offset..(dst_offset + decoded_len)) else {
+                whatever!(
+                    "JPEG frame {} decodes to {} bytes, more than the image attributes allow",
+                    i,
+                    decoded_len
+                );
+            };
+            target.copy_from_slice(&decoded);
             dst_offset += decoded_len;
 
             if next_even(cursor.position()) >= next_even(fragments_len) {
@@ -165,7 +174,7 @@ impl PixelDataReader for JpegAdapter {
         // `stride` it the total number of bytes for each sample plane
         let stride: usize = bytes_per_sample as usize * cols as usize * rows as usize;
         let base_offset = dst.len();
-        dst.resize(base_offset + (samples_per_pixel as usize * stride), 0);
+        extend_zeroed(dst, (samples_per_pixel as usize).checked_mul(stride))?;
 
         let raw = src
             .raw_pixel_data()
@@ -225,10 +234,29 @@ impl PixelDataReader for JpegAdapter {
             .whatever_context("JPEG decoder failure")?;
 
         let decoded_len = decoded.len();
-        dst[dst_offset..(dst_offset + decoded_len)].copy_from_slice(&decoded);
+        let Some(target) = dst.get_mut(dst_offset..(dst_offset + decoded_len)) else {
+            whatever!(
+                "JPEG frame decodes to {} bytes, more than the image attributes allow",
+                decoded_len
+            );
+        };
+        target.copy_from_slice(&decoded);
 
         Ok(())
     }
+}
+
+/// Extend `dst` with `len` zeroed bytes for the decoded pixel data,
+/// failing if the length cannot be represented or allocated.
+fn extend_zeroed(dst: &mut Vec<u8>, len: Option<usize>) -> DecodeResult<()> {
+    let Some(len) = len else {
+        whatever!("Decoded pixel data size is too large");
+    };
+    if dst.try_reserve(len).is_err() {
+        whatever!("Could not allocate {} bytes for the decoded pixel data", len);
+    }
+    dst.resize(dst.len() + len, 0);
+    Ok(())
 }
 
 impl PixelDataWriter for JpegAdapter {
